@@ -326,6 +326,38 @@ def main():
             if not (abs(Cd.sum() - want_) <= 1e-9 * want_) or not (np.abs(Cd - Cd.T).max() <= 1e-12 * np.abs(Cd).max()):
                 res.fail(f"capacity total with field coefficients ({name_})", f"entries of C sum to {Cd.sum()}, expected the integral of rho c thickness = {want_} (Ne = {Ne_}, nPg = {nPg_})", ident)
 
+    # ---------------- a field of densities / capacities updated in place by its owner and assigned again ----------------
+    # (`rho_e *= 1.5; simu.rho = rho_e` is the way to tell the library that the array changed): M and C carry the new field
+    for et_, kind_ in (("TRI3", "elastic"), ("QUAD8", "elastic"), ("TRI3", "thermal"), ("HEXA8", "elastic")):
+        dimf = M.dim_of(et_)
+        meshf = M.mesh_2d(et_, 2.0, 1.0, 0.7) if dimf == 2 else M.mesh_3d(et_, 2.0, 1.0, 1.5, 1.0, 2)
+        gf = meshf.groupElem
+        wJf = np.asarray(gf.Get_weightedJacobian_e_pg(_MT.mass))
+        thf = 0.5 if dimf == 2 else 1.0
+        rho_f = np.array([1 + rng.random() for _ in range(gf.Ne)])
+        identf = dict(elemType=et_, sim=kind_, ops=["simu.rho = rho_e", "read M", "rho_e *= 1 + e / Ne (in place)", "simu.rho = rho_e", "read M"])
+        res.case((et_, "field updated in place and assigned again", kind_))
+        try:
+            if kind_ == "thermal":
+                sf = Simulations.Thermal(meshf, Models.Thermal(2.0, 3.0, thickness=thf))
+                slot, fac = 1, 3.0
+            else:
+                sf = Simulations.Elastic(meshf, Models.Elastic.Isotropic(dimf, E=10.0, v=0.25, **({"thickness": thf} if dimf == 2 else {})))
+                slot, fac = 2, 1.0
+            sf.rho = rho_f
+            tot0 = sf.Get_K_C_M_F()[slot].toarray().sum()
+            rho_f *= 1 + np.arange(gf.Ne) / gf.Ne
+            sf.rho = rho_f
+            tot1 = sf.Get_K_C_M_F()[slot].toarray().sum()
+        except Exception as ex:  # noqa: BLE001
+            res.fail(f"field updated in place raises sim={kind_}", f"{type(ex).__name__}: {str(ex)[:150]}", identf)
+            continue
+        ncomp = 1 if kind_ == "thermal" else dimf
+        want1 = fac * thf * ncomp * float((wJf * rho_f.reshape(-1, 1)).sum())
+        if not (abs(tot1 - want1) <= 1e-9 * want1):
+            res.fail(f"mass / capacity after a density field was updated in place and assigned again sim={kind_} elem={et_}",
+                     f"entries of {'C' if kind_ == 'thermal' else 'M'} sum to {tot1!r} (before the update {tot0!r}); density x measure x thickness of the field now held by the simulation = {want1!r}", identf)
+
     # ---------------- thermal plates out of the (x, y) plane, inclined bars; mirrored meshes after an unrelated probing read ----------------
     for et_ in (["TRI3", "QUAD4"] if not thorough else ["TRI3", "QUAD4", "TRI6", "QUAD8"]):
         for scen in ("tilted plate", "mirrored plate after a point probe"):
